@@ -1,3 +1,5 @@
+use crate::error_code::ErrorCode;
+use crate::server_error::ServerError;
 use crate::server_error::ServerResult;
 use agdb::QueryType;
 use agdb_api::DbUserRole;
@@ -69,6 +71,30 @@ pub(crate) fn required_role(queries: &Queries) -> DbUserRole {
     DbUserRole::Read
 }
 
+/// A database name becomes file names inside the owner's directory
+/// (`<db>`, `.<db>`, `backups/<db>.bak`, `backups/<db>.log`, `audit/<db>.log`
+/// and the rollback temporaries `backups/<db>`, `backups/<db>.audit`), so it
+/// must be a single plain path component that cannot collide with the files
+/// or directories of another database of the same owner.
+pub(crate) fn validate_db_name(name: &str) -> ServerResult {
+    const RESERVED: [&str; 2] = ["audit", "backups"];
+    const RESERVED_SUFFIXES: [&str; 3] = [".bak", ".log", ".audit"];
+
+    if name.is_empty()
+        || name.contains(['/', '\\', '\0'])
+        || name.starts_with('.')
+        || RESERVED.contains(&name)
+        || RESERVED_SUFFIXES.iter().any(|s| name.ends_with(s))
+    {
+        return Err(ServerError::new(
+            ErrorCode::DbInvalid.into(),
+            &format!("{}: invalid db name '{name}'", ErrorCode::DbInvalid.as_str()),
+        ));
+    }
+
+    Ok(())
+}
+
 pub(crate) fn unquote(value: &str) -> &str {
     value.trim_start_matches('"').trim_end_matches('"')
 }
@@ -134,6 +160,19 @@ mod tests {
         let size = get_size("Cargo.toml").await.unwrap();
         assert_ne!(size, 0);
         Ok(())
+    }
+
+    #[test]
+    fn db_names() {
+        for name in ["db", "my.db", "a-b_c", "bak", "log.x", "Audit2"] {
+            assert!(validate_db_name(name).is_ok(), "{name}");
+        }
+        for name in [
+            "", ".", "..", ".db", "a/b", "../x", "/abs", "a\\b", "a\0b", "audit", "backups", "db.bak",
+            "db.log", "db.audit",
+        ] {
+            assert!(validate_db_name(name).is_err(), "{name}");
+        }
     }
 
     #[test]
